@@ -107,7 +107,15 @@ Ids == {"L1", "L9", "LK", "LK2"}
 DataSets(id) == IF NY(id) = 1
                 THEN { << <<6>>, <<NaN>>, <<4>> >>, << <<3>>, <<5>>, <<2>> >>, << <<NaN>>, <<1>>, <<NaN>> >>, << <<2>>, <<NaN>>, <<NaN>> >> }
                 ELSE { << <<1, 3>>, <<NaN, 2>>, <<0, NaN>> >>, << <<2, NaN>>, <<1, 4>>, <<NaN, CNeg1>> >>, << <<NaN, NaN>>, <<1, NaN>>, <<NaN, 3>> >> }
-Init == sc \in UNION {{[id |-> id, data |-> d, sd |-> sd, sdw |-> sw] : d \in DataSets(id),
+\* thorough tier (Deep <- DeepOn in the cfg): every pattern of missing observations over the three periods
+Deep == FALSE
+DeepOn == TRUE
+Masked(vals, mask) == [t \in 1..Len(vals) |-> [i \in 1..Len(vals[t]) |-> IF mask[t][i] THEN vals[t][i] ELSE NaN]]
+DeepData(id) == IF NY(id) = 1
+                THEN {Masked(v, m) : v \in { << <<3>>, <<5>>, <<2>> >>, << <<1>>, <<CNeg1>>, <<2>> >> }, m \in [1..3 -> [1..1 -> BOOLEAN]]}
+                ELSE {Masked(<< <<1, 3>>, <<CNeg1, 2>>, <<0, 4>> >>, m) : m \in {mm \in [1..3 -> [1..2 -> BOOLEAN]] :
+                                                                             Cardinality({c \in (1..3) \X (1..2) : mm[c[1]][c[2]]}) <= 4}}
+Init == sc \in UNION {{[id |-> id, data |-> d, sd |-> sd, sdw |-> sw] : d \in (IF Deep THEN DeepData(id) ELSE DataSets(id)),
                           sd \in {[i \in 1..NE(id) |-> R(3)], [i \in 1..NE(id) |-> R(12)]}, sw \in {R(1), R(4)}} : id \in Ids}
         /\ out = <<>> /\ done = FALSE
 Compute == /\ ~done /\ done' = TRUE /\ UNCHANGED sc
